@@ -63,6 +63,13 @@ def genRaw (item : Char) (i : Nat) (ctx : Option ErrCtx) : Out String :=
     match ctx with
     | none => .ok "echo "
     | some c => .ok ("echo " ++ String.join ((ctxNonces c).map fun n => s!"<{n}>"))
+  | 'b' => .ok ""
+  | 's' => .ok "   "
+  | 'n' => .ok "\n"
+  | 't' => .ok "\t \n"
+  | 'K' => .ok (head ++ zs 5000 ++ tail)
+  | 'U' => .ok s!"prix élevé ñ 价格 <{i}> ü"
+  | 'P' => .ok s!"Previous output was invalid. Error: <{i + 600}>\nYour output was: <{i}>"
   | 'x' => .raise
   | _ => .ok s!"garbage <{i}>"
 
@@ -142,6 +149,12 @@ def stepOut (item : Char) (g : Nat) : Out String :=
   | 'o' => .ok "it is solved"
   | 'C' => .ok "incomplete"
   | 'n' => .ok "SUCCES" | 'm' => .ok "DON E" | 'f' => .ok "finish" | 'v' => .ok "solve" | 'k' => .ok "complet e"
+  | '0' => .ok ""
+  | '_' => .ok "   "
+  | 'N' => .ok s!"terminé ñ 价格 <{g}>"
+  | 'K' => .ok (zs 3000 ++ " done")
+  | 'L' => .ok (zs 3000 ++ s!" <{g}>")
+  | 'E' => .ok "Step limit reached, task failed"
   | 'x' => .raise
   | _ => .ok s!"out <{g}>"
 
@@ -207,8 +220,8 @@ def swarmTags (cfg : SwarmCfg) (r : SwarmRun SwSt Nat String (List Nat) Nat) : S
 structure TRes where
   callId : Nat
   success : Bool
-  output : Nat
-  error : Nat
+  /-- nonces of the field that is fed back (`output` on success, `error` otherwise) -/
+  shown : List Nat
 
 structure TSt where
   p : Nat := 0
@@ -229,15 +242,22 @@ def toolAdv (ps ts cs : List Char) : ToolAdv TSt Nat Nat TRes where
   exec s call :=
     match pick ts s.e 'o' with
     | 'x' => ({ s with e := s.e + 1 }, .raise)
-    | 'f' => ({ s with e := s.e + 1 }, .ok ⟨call, false, 800 + s.e, 100 + s.e⟩)
-    | _ => ({ s with e := s.e + 1 }, .ok ⟨call, true, 100 + s.e, 900 + s.e⟩)
+    | 'f' => ({ s with e := s.e + 1 }, .ok ⟨call, false, [100 + s.e]⟩)
+    | 'b' => ({ s with e := s.e + 1 }, .ok ⟨call, true, []⟩)          -- empty output
+    | 'w' => ({ s with e := s.e + 1 }, .ok ⟨call, true, []⟩)          -- whitespace-only output
+    | 'n' => ({ s with e := s.e + 1 }, .ok ⟨call, true, []⟩)          -- output None
+    | 'g' => ({ s with e := s.e + 1 }, .ok ⟨call, false, []⟩)         -- failure with empty error
+    | 'L' => ({ s with e := s.e + 1 }, .ok ⟨call, true, [100 + s.e, 700 + s.e]⟩)   -- very long output
+    | 'U' => ({ s with e := s.e + 1 }, .ok ⟨call, true, [100 + s.e]⟩)  -- non-ASCII output
+    | 'P' => ({ s with e := s.e + 1 }, .ok ⟨call, true, [7, 100 + s.e]⟩)  -- output that looks like the prompt
+    | _ => ({ s with e := s.e + 1 }, .ok ⟨call, true, [100 + s.e]⟩)
 
 /-- the nonces a prompt carries: the caller's prompt `<7>`, then per tool result its call id and the
     field that is fed back -/
 def showView (p : PromptView TRes) : String :=
   match p with
   | none => "7"
-  | some rs => showNs (7 :: (rs.map fun r => [500 + r.callId, if r.success then r.output else r.error]).flatten)
+  | some rs => showNs (7 :: (rs.map fun r => (500 + r.callId) :: r.shown).flatten)
 
 def showTEv : TEv Nat Nat TRes → String
   | .tools p (.ok (_, calls)) => s!"T{showView p}:{calls.length}"
@@ -287,6 +307,7 @@ def step (st : DSt) (toks : List String) : DSt × String :=
     let cfg : ToolCfg := ⟨intD mi, boolOf ae, boolOf hs, boolOf ha⟩
     let r := transcribeWithTools cfg (toolAdv (scriptOf ps) (scriptOf ts) (scriptOf cs)) {}
     (st, showTool r ++ " ## " ++ toolTags cfg r)
+  | ["retools", _, _, _] => (st, "ok")   -- re-entrant tool adversary: judged by the harness oracle only
   | _ => (st, "bad-op")
 
 def main : IO Unit := runDriver ({} : DSt) step
